@@ -1,7 +1,7 @@
 (* C06 - Symbolic arithmetic on models is pointwise arithmetic on energies.
    Only statements; every proof is `exact <lemma>`. *)
 From Coq Require Import List ZArith QArith Qcanon Bool Arith.
-From Dimod Require Import Base.Util Model.Poly Model.Sym Proofs.PolyFacts Proofs.SymFacts.
+From Dimod Require Import Base.Util Model.Poly Model.Sym Model.SymStore Proofs.PolyFacts Proofs.SymFacts Proofs.SymStoreFacts.
 Import ListNotations.
 Open Scope Qc_scope.
 
@@ -112,6 +112,60 @@ Theorem C06_division_by_model_rejected :
   forall a m, v_div a (VMdl m) = Err ETypeError /\ v_div a (VView m) = Err ETypeError.
 Proof. exact div_by_model_rejected. Qed.
 Print Assumptions C06_division_by_model_rejected.
+
+(* ---- quicksum is the left fold of + and touches none of its arguments ---- *)
+Theorem C06_quicksum_left_fold :
+  forall x xs vs, mapM eval (x :: xs) = Ok vs -> eval (Quicksum (x :: xs)) = eval (fold_left Add xs x).
+Proof. exact quicksum_left_fold. Qed.
+Print Assumptions C06_quicksum_left_fold.
+
+Theorem C06_quicksum_frame :
+  forall args st st', exec_quicksum args st = Ok st' ->
+  exists v, st' = st ++ [v] /\ forall k, (k < length st)%nat -> nth_error st' k = nth_error st k.
+Proof. exact quicksum_frame. Qed.
+Print Assumptions C06_quicksum_frame.
+
+(* ---- in-place forms: the pure operator on the receiver, a frame for every other object ---- *)
+Theorem C06_inplace_is_pure :
+  forall o i j st st', exec_inplace o i j st = Ok st' ->
+  exists a b v, nth_error st i = Some a /\ nth_error st j = Some b /\ pure_op o a b = Ok v /\
+    nth_error st' i = Some v /\ length st' = length st /\
+    forall k, k <> i -> nth_error st' k = nth_error st k.
+Proof. exact inplace_is_pure. Qed.
+Print Assumptions C06_inplace_is_pure.
+
+Theorem C06_inplace_other_operand_unchanged :
+  forall o i j st st', exec_inplace o i j st = Ok st' -> j <> i -> nth_error st' j = nth_error st j.
+Proof. exact inplace_other_operand_unchanged. Qed.
+Print Assumptions C06_inplace_other_operand_unchanged.
+
+Theorem C06_inplace_fails_iff_pure :
+  forall o i j st a b, nth_error st i = Some a -> nth_error st j = Some b ->
+  forall e, exec_inplace o i j st = Err e <-> pure_op o a b = Err e.
+Proof. exact inplace_fails_iff_pure. Qed.
+Print Assumptions C06_inplace_fails_iff_pure.
+
+(* ---- comparison objects (sym.Le / Ge / Eq) ---- *)
+(* `model <sense> number` and the reflected `number <sense> model` accept exactly the samples on
+   which the written relation holds between the two sides' energies *)
+Theorem C06_eval_cmp_sat :
+  forall a s b c, eval_cmp a s b = Ok c ->
+  forall smp, respects (tvt (m_tab (cm_lhs c))) smp ->
+    (sat (cm_sense c) (energy (m_poly (cm_lhs c)) smp) (cm_rhs c) <-> sat s (denote a smp) (denote b smp)).
+Proof. exact eval_cmp_sat. Qed.
+Print Assumptions C06_eval_cmp_sat.
+
+(* a model on both sides is rejected (TypeError); the documented rewrite a - b <sense> 0 accepts
+   the same samples *)
+Theorem C06_cmp_two_models_rejected : forall m1 m2 s, v_cmp (VMdl m1) s (VMdl m2) = Err ETypeError.
+Proof. exact cmp_two_models_rejected. Qed.
+Print Assumptions C06_cmp_two_models_rejected.
+
+Theorem C06_cmp_move_terms :
+  forall a b d s, v_sub a b = Ok d -> forall smp, respects (tvt (val_tab d)) smp ->
+  (sat s (val_energy d smp) 0 <-> sat s (val_energy a smp) (val_energy b smp)).
+Proof. exact cmp_move_terms. Qed.
+Print Assumptions C06_cmp_move_terms.
 
 (* ---- non-vacuity: the hypotheses are satisfiable on non-trivial data ---- *)
 Definition xb := Var KBin 0%nat 0 1.
